@@ -16,36 +16,47 @@ E == Trace[l]
 Bump(f, k) == IF k \in DOMAIN f THEN [f EXCEPT ![k] = @ + 1] ELSE [x \in DOMAIN f \cup {k} |-> IF x = k THEN 1 ELSE f[x]]
 SkipOn(s) == s \in {"true", "strTrue"}
 
-\* cfgs: sequence of [ca, skip, interval, roots] in load order (duplicates kept: they must share the object)
+\* cfgs: sequence of [ca, skip, interval, roots] in load order (duplicates kept: they must share the object).
+\* roots is the SET of contents the configuration may hold: between a rewrite and the next elapsed interval the real
+\* watcher may or may not have picked the new content up, so both are possible; every observation narrows the set.
+Usable(c) == c \in {"ca1", "ca2"}
 NewCfg == [ca |-> E.ca, skip |-> E.skip, interval |-> E.interval,
-           roots |-> IF E.ca = "inline1" THEN "ca1" ELSE IF E.ca = "file" THEN file ELSE "none"]
+           roots |-> IF E.ca = "inline1" THEN {"ca1"} ELSE IF E.ca = "file" THEN {file} ELSE {"none"}]
 Same(a, b) == a.ca = b.ca /\ SkipOn(a.skip) = SkipOn(b.skip) /\ a.interval = b.interval
-\* an earlier equal configuration decides (it may have been refreshed differently only if intervals differ, which Same excludes)
+Refreshing(c) == c.ca = "file" /\ c.interval > 0
 After ==
   CASE E.op = "load" -> IF \E i \in DOMAIN cfgs : Same(cfgs[i], NewCfg)
                         THEN Append(cfgs, [NewCfg EXCEPT !.roots = cfgs[CHOOSE i \in DOMAIN cfgs : Same(cfgs[i], NewCfg)].roots])
                         ELSE Append(cfgs, NewCfg)
-    [] E.op = "wait" -> [i \in DOMAIN cfgs |-> IF cfgs[i].ca = "file" /\ cfgs[i].interval > 0 /\ file \in {"ca1", "ca2"} THEN [cfgs[i] EXCEPT !.roots = file] ELSE cfgs[i]]
+    [] E.op = "rewrite" -> [i \in DOMAIN cfgs |-> IF Refreshing(cfgs[i]) /\ Usable(E.content) THEN [cfgs[i] EXCEPT !.roots = @ \cup {E.content}] ELSE cfgs[i]]
+    [] E.op = "wait" -> [i \in DOMAIN cfgs |-> IF Refreshing(cfgs[i]) /\ Usable(file) THEN [cfgs[i] EXCEPT !.roots = {file}] ELSE cfgs[i]]
     [] OTHER -> cfgs
 
-Trusts(c, ca) == (c.ca = "none" /\ SkipOn(c.skip)) \/ c.roots = ca
+Insecure(c) == c.ca = "none" /\ SkipOn(c.skip)
+Consistent(c, o, r) == (o.ca1 = (Insecure(c) \/ r = "ca1")) /\ (o.ca2 = (Insecure(c) \/ r = "ca2"))
+\* the two handshakes of one observation are made one after the other: while a refresh is possible they may see different roots
+Explained(c, o) == (\E r \in c.roots : o.ca1 = (Insecure(c) \/ r = "ca1")) /\ (\E r \in c.roots : o.ca2 = (Insecure(c) \/ r = "ca2"))
+\* every observation narrows the possibilities to what was seen; the current usable content of the file stays possible
+\* for a refreshing configuration, because its watcher may pick it up at any moment
+Narrow(a, obs, cur) == [i \in DOMAIN a |->
+    LET ok == {r \in a[i].roots : Consistent(a[i], obs[i], r)}
+        soon == IF Refreshing(a[i]) /\ Usable(cur) THEN {cur} ELSE {}
+    IN IF ok = {} THEN [a[i] EXCEPT !.roots = @ \cup soon] ELSE [a[i] EXCEPT !.roots = ok \cup soon]]
 
 Causes ==
   LET a == After
       obs == E.obs
-      \* between a rewrite and the next elapsed interval ("wait") either content may be trusted by a refreshing file configuration
-      judged(i) == ~((E.op = "rewrite" \/ (pending /\ E.op # "wait")) /\ a[i].ca = "file" /\ a[i].interval > 0)
-      bad == {i \in DOMAIN a : judged(i) /\ (obs[i].ca1 # Trusts(a[i], "ca1") \/ obs[i].ca2 # Trusts(a[i], "ca2"))}
+      bad == {i \in DOMAIN a : ~Explained(a[i], obs[i])}
   IN (IF bad = {} THEN {}
       ELSE LET i == CHOOSE x \in bad : \A y \in bad : x <= y
                c == a[i]
-           IN {IF c.ca = "file" /\ c.interval > 0 /\ E.op = "wait" THEN "rotation-not-followed-by:" \o (IF \E j \in DOMAIN a : j # i /\ a[j].ca = "file" /\ ~Same(a[j], c) THEN "config-sharing-the-file-with-another" ELSE "only-config-on-the-file")
+           IN {IF Refreshing(c) /\ E.op = "wait" THEN "rotation-not-followed-by:" \o (IF \E j \in DOMAIN a : j # i /\ a[j].ca = "file" /\ ~Same(a[j], c) THEN "config-sharing-the-file-with-another" ELSE "only-config-on-the-file")
                ELSE IF c.ca = "none" /\ ~SkipOn(c.skip) THEN "trusts-without-ca-and-without-skip"
                ELSE IF c.ca # "none" /\ (obs[i].ca1 /\ obs[i].ca2) THEN "skip-verify-wins-over-ca-or-trusts-everything"
                ELSE IF c.ca = "none" THEN "skip-verify-not-honoured"
                ELSE "trusted-cas-differ:" \o c.ca \o ":" \o E.op})
      \cup (IF \E i, j \in DOMAIN a : i < j /\ Same(a[i], a[j]) /\ obs[i].ptr # "nil" /\ obs[j].ptr # "nil" /\ obs[i].ptr # obs[j].ptr THEN {"identical-settings-do-not-share-one-configuration"} ELSE {})
-     \cup (IF E.aliveWatchers > Cardinality({[ca |-> a[i].ca, s |-> SkipOn(a[i].skip), n |-> a[i].interval] : i \in {j \in DOMAIN a : a[j].ca = "file" /\ a[j].interval > 0}})
+     \cup (IF E.aliveWatchers > Cardinality({[ca |-> a[i].ca, s |-> SkipOn(a[i].skip), n |-> a[i].interval] : i \in {j \in DOMAIN a : Refreshing(a[j])}})
            THEN {"superseded-watcher-still-running"} ELSE {})
 
 Init == l = 1 /\ file = "ca1" /\ pending = FALSE /\ cfgs = <<>> /\ sc = "none" /\ skip = FALSE /\ viol = {} /\ fired = <<>>
@@ -55,7 +66,7 @@ Next ==
        [] E.ev = "tev" ->
             IF skip THEN UNCHANGED <<file, pending, cfgs, sc, skip, viol, fired>>
             ELSE /\ file' = IF E.op = "rewrite" THEN E.content ELSE file
-                 /\ cfgs' = After
+                 /\ cfgs' = Narrow(After, E.obs, IF E.op = "rewrite" THEN E.content ELSE file)
                  /\ viol' = viol \cup {[p |-> "C20", m |-> "TrustFollowsConfiguration", cause |-> c, sc |-> sc, n |-> 0, at |-> l] : c \in Causes}
                  /\ skip' = (Causes # {})
                  /\ fired' = Bump(fired, E.op)
